@@ -39,18 +39,18 @@ type Ev struct {
 
 // SideRec is what one side of one stream observed.
 type SideRec struct {
-	mu      sync.Mutex
-	Evs     []Ev
-	Sent    [][]byte // successfully sent messages
-	Recvd   [][]byte
-	RecvEnd error // the error that ended receiving (io.EOF, status, ...), nil if none yet
-	SendErr error // first non-nil error of a send / closeSend
-	Ret     error // handler return value
-	Header  metadata.MD
-	HdrErr  error
-	Trailer metadata.MD
-	Done    bool
-	InMD    metadata.MD // handler: incoming metadata
+	mu          sync.Mutex
+	Evs         []Ev
+	Sent        [][]byte // successfully sent messages
+	Recvd       [][]byte
+	RecvEnd     error // the error that ended receiving (io.EOF, status, ...), nil if none yet
+	SendErr     error // first non-nil error of a send / closeSend
+	Ret         error // handler return value
+	Header      metadata.MD
+	HdrErr      error
+	Trailer     metadata.MD
+	Done        bool
+	InMD        metadata.MD // handler: incoming metadata
 	CtxErrAtEnd error
 }
 
@@ -62,10 +62,10 @@ func (s *SideRec) add(e Ev) {
 }
 
 type Gates struct {
-	mu sync.Mutex
+	mu  sync.Mutex
 	all bool // OpenAll was called: every gate, also one created later, is open
-	m  map[string]chan struct{}
-	at map[string]chan struct{}
+	m   map[string]chan struct{}
+	at  map[string]chan struct{}
 }
 
 func NewGates() *Gates { return &Gates{m: map[string]chan struct{}{}, at: map[string]chan struct{}{}} }
@@ -279,15 +279,15 @@ func runHandlerProg(ss grpc.ServerStream, tag string, ops []Op, rec *SideRec, ga
 // clientStreamRun drives one client stream with a sender and a receiver op
 // list (the receiver list may be empty: then everything runs in one goroutine).
 type ClientRun struct {
-	Ctx      context.Context
-	Cancel   func()
-	Fire     func()
-	Stream   *svc.Stream
-	OpenErr  error
-	Rec      *SideRec
-	wg       sync.WaitGroup
-	ArmRecv  func(ctx context.Context) // called right before a recv flagged "arm"
-	ArmSend  func(ctx context.Context)
+	Ctx     context.Context
+	Cancel  func()
+	Fire    func()
+	Stream  *svc.Stream
+	OpenErr error
+	Rec     *SideRec
+	wg      sync.WaitGroup
+	ArmRecv func(ctx context.Context) // called right before a recv flagged "arm"
+	ArmSend func(ctx context.Context)
 }
 
 func (cr *ClientRun) interp(ops []Op, tag string, gates *Gates, sendSeq *int) {
